@@ -15,12 +15,14 @@ LEVEL_TEXT = (
     'reference demands (digits of every integer of each window, inverse, cross conversions, round trip, #NUM! '
     'for out-of-window / invalid / too long / fractional digit strings and bad places, #VALUE! for booleans, '
     'upper case, zero padding), proved by arithmetic over the digit functions for all integers, plus a kernel '
-    'decision of the whole binary window x places 1..10 and decide-obligations on the generated tables and the '
+    'decision of the whole binary window x places 1..10 and decide-obligations on the tables probed from the '
+    'running functions (digit sets, radix, widths, digit limit, accepted range per conversion, places range) and the '
     'function registry. The model is tied to the running code by an exhaustive binary-window run, window edges, '
     'sampled 40-bit integers, every invalid digit-string class, direct calls, through formulas, and through '
     'histories on one re-used compiled model whose input cells are overwritten with set_cell_value.')
 LEVEL_NOTE = (
-    'Trusted: Lean kernel (axioms propext, Classical.choice, Quot.sound), the translator that prints the tables, '
+    'Trusted: Lean kernel (axioms propext, Classical.choice, Quot.sound), the translator (it obtains the tables '
+    'by probing the registered functions, not from source text or module constants), '
     'the hand-written model (validated by correspondence, not proved equal to the Python), hand models of the '
     'Python builtins int(str, base), bin/oct/hex, &, ~, str.zfill, str.upper; floats as ideal reals.')
 DESIGN_REF = '§4 C19'
@@ -31,8 +33,11 @@ TRANSPORT = ('XlVerif.Props.X01', ['X01_DEC2BIN'])
 
 TRUSTED = [
     'Lean 4.33 kernel; axioms propext, Classical.choice, Quot.sound only',
-    'translator harness/extractors/c19_eng.py: that Gen/C19Eng.lean holds the tables of the running '
-    'engineering module (cross-checked on every run against a digest computed here from the module)',
+    'translator harness/extractors/c19_eng.py: Gen/C19Eng.lean is obtained by probing the registered functions '
+    '(digit sets per character, radix, sign and wrap widths, digit limit, accepted integers per conversion by '
+    'bisection, places range, case, which conversion each name performs); trusted: that the probes are '
+    'representative (bisection assumes an interval; characters outside the probed universe of ~1500 code '
+    'points count as refused) - the differential run covers what the probes interpolate',
     'hand-written model lean/XlVerif/Model/C19.lean of xlfunctions/engineering.py, tied to the code by this '
     'correspondence run (not proved equal to the Python)',
     'hand models of Python builtins: int(str, base), bin/oct/hex (core Nat.toDigits), & and ~ on unbounded '
@@ -618,33 +623,24 @@ def registered_in_fresh_process():
 
 
 _DIGEST_CODE = r'''
-import sys, json, importlib
-sys.path.insert(0, sys.argv[1])
-eng = importlib.import_module('xlcalculator.xlfunctions.engineering')
-names = {bin: 'bin', oct: 'oct', hex: 'hex', eng.dec: 'dec'}
-order = ['bin', 'oct', 'dec', 'hex']
-by = lambda d: sorted(((names[k], v) for k, v in d.items()), key=lambda r: order.index(r[0]))
-digits = ','.join(f'{k}:' + ''.join(sorted(v)) for k, v in by(eng.PERMITTED_DIGITS))
-widths = ','.join(f'{k}:{v}' for k, v in by(eng.BIT_WIDTHS))
-bases = ','.join(f'{k}:{v}' for k, v in by(eng.BASE_NUMBERS))
-rows = []
-for fs, v in eng.BOUNDS.items():
-    ks = sorted((names[k] for k in fs), key=order.index)
-    ks = ks * 2 if len(ks) == 1 else ks
-    rows.append((order.index(ks[0]), order.index(ks[1]), f'{ks[0]}+{ks[1]}:{v}'))
-bounds = ','.join(r[2] for r in sorted(rows))
-print(json.dumps({'digits': digits, 'widths': widths, 'bases': bases, 'bounds': bounds}))
+import sys, json
+sys.path.insert(0, sys.argv[2])          # /verif/harness
+import common                            # puts the repo under test first on sys.path
+from extractors import c19_eng
+print(json.dumps(c19_eng.digest(c19_eng.probe_tables())))
 '''
 
 
 def tables_digest_of_module():
-    """Digest of the tables of the running engineering module, computed in a separate interpreter (this
-    process must not import the module itself: defect D49 is about the package not doing so)."""
-    p = subprocess.run([sys.executable, '-c', _DIGEST_CODE, str(common.REPO)], stdout=subprocess.PIPE,
-                       stderr=subprocess.PIPE, text=True, timeout=300)
+    """Digest of the behaviour tables (the translator's probes of the registered functions), computed in a
+    separate interpreter (this process must not import the engineering module itself: defect D49 is about
+    the package not doing so)."""
+    env = dict(os.environ, XLVERIF_REPO=str(common.REPO))
+    p = subprocess.run([sys.executable, '-c', _DIGEST_CODE, str(common.REPO), str(common.VERIF / 'harness')],
+                       stdout=subprocess.PIPE, stderr=subprocess.PIPE, text=True, timeout=300, env=env)
     if p.returncode != 0:
         raise ValueError(p.stderr[-600:])
-    return json.loads(p.stdout)
+    return json.loads(p.stdout.strip().splitlines()[-1])
 
 
 # ---------------------------------------------------------------- run
